@@ -1825,7 +1825,7 @@ where
     /// assert_eq!(Polynomial::new(bfe_vec![2, 3, 4]), g);
     /// ```
     pub fn truncate(&self, k: usize) -> Self {
-        let coefficients = self.coefficients.iter().copied();
+        let coefficients = self.coefficients().iter().copied();
         let coefficients = coefficients.rev().take(k + 1).rev().collect();
         Self::new(coefficients)
     }
